@@ -2,7 +2,8 @@
 ALL = ["C%02d" % i for i in range(1, 21)]
 
 claim("C18",
-      "ErrorAlgebra.tla is model-checked exhaustively (all leaf vectors of length <=3 [quick] / <=4 [thorough] x every parenthesisation, all status cases); "
+      "ErrorAlgebra.tla is model-checked exhaustively (all leaf vectors of length <=3 [quick] / <=4 [thorough] x every parenthesisation, all status cases; every "
+      "leaf carries a cause: none, plain, gRPC status by code, wrapped status, GRPCStatus() types, status with its own detail, inner ServiceError); "
       "every enumerated case is evaluated on the real goa.MergeErrors, ErrorResponse.StatusCode, grpc.EncodeError/DecodeError and compared with the model's "
       "predicted observable; random 5-8-leaf trees evaluated by the real code are validated by TLC as a trace against the same operators.",
       "Trusted: the projection in harness/drivers/errors (message m<i>, field f<i>, errors.Is for causes), Go's errors package, TLC. "
@@ -50,7 +51,8 @@ claim("C15",
       "TLC exhaustive model checking + vectors replayed on real code + TLC trace validation", "DESIGN.md 6 (C15)")
 
 claim("C19",
-      "Middleware.tla (request-id trust/truncate/fresh, trace keep/sample/skip, traced client forwarding, ResponseCapture counters; chains of 1-4 hops) is "
+      "Middleware.tla (request-id trust/truncate/fresh, trace keep/sample/skip with a list of 0-3 discard patterns and every subset of matching positions, option "
+      "lists in plain / reversed / duplicated layouts, traced client forwarding, ResponseCapture counters; chains of 1-4 hops) is "
       "model-checked in three slices with 15 deviation guards; every enumerated case runs on the real HTTP middlewares (httptest, WrapDoer chain) and on the "
       "real gRPC unary/stream interceptors (synthetic info/streams, no network) and must be one of the behaviours TLC allows; random cases are validated as traces.",
       "Trusted: the projection of concrete ids to tokens (provenance by prefix), injected TraceIDFunc/SpanIDFunc counters, httptest.ResponseRecorder as the "
@@ -66,8 +68,9 @@ claim("C05",
       HTTP_NOTE + " What the client returns for an undeclared error is not constrained (the statement does not fix it).",
       "TLC exhaustive model checking + TLC-generated cases replayed on generated code", "DESIGN.md 6 (C05)")
 claim("C06",
-      "Security.tla (requirement lists at API/service/method level, NoSecurity, inheritance, the generated endpoint's nested or-of-ands control flow, credential "
-      "classes) is model-checked exhaustively (285k states); every case runs through the real generated client/server with a recording Auther whose verdicts come "
+      "Security.tla (requirement lists at API/service/method level, NoSecurity, inheritance, the generated endpoint's nested or-of-ands control flow; and how "
+      "credentials travel: location x wire form (bare, Bearer/bearer/other scheme word, extra spaces, empty, absent) x generated client or raw request) is "
+      "model-checked exhaustively; every case runs through the real generated client/server with a recording Auther whose verdicts come "
       "from the vector; invoke flag, callbacks made, credentials, declared/required scopes and the denial error are judged against the model.",
       HTTP_NOTE + " The exact order of callbacks is not constrained, only which may be called and that a grant is witnessed by a fully checked requirement.",
       "TLC exhaustive model checking + TLC-generated cases replayed on generated code", "DESIGN.md 6 (C06)")
@@ -88,7 +91,7 @@ claim("C17",
       "TLC exhaustive model checking + schedule replay through hooks + TLC trace validation", "DESIGN.md 6 (C17)")
 
 claim("C16",
-      "Mux.tla (Use/Handle registration with pending middlewares and the wildcard table, net/url Path/RawPath rule, chi routing context, Vars, ResolvePattern "
+      "Mux.tla (Use/Handle registration as a history - a later Handle replaces an earlier one of the same method and shape - with pending middlewares and the wildcard table, net/url Path/RawPath rule, chi routing context, Vars, ResolvePattern "
       "probed from middlewares before and after next, 404 handling) is model-checked exhaustively in three families (values, dispatch, middleware) with four "
       "deviation guards; every enumerated case is served by the real goahttp.Muxer with requests that went through net/http's own parsing; random cases (up to "
       "6 patterns) are validated by TLC as traces.",
@@ -120,8 +123,9 @@ claim("C09",
       "TLC exhaustive model checking of histories + replay with the real goa CLI + TLC trace validation", "DESIGN.md 6 (C09)")
 
 claim("C11",
-      "Eval.tla (registered roots, dependency relation, two expression sets per root, behaviours plain/append/appendsame/register-root/report-error/"
-      "validation-error; ComputeOrder with any topological order or the cycle error, per-expression Exec/Prepare/Validate/Finalize steps, phase barriers, "
+      "Eval.tla (registered roots, dependency relation, two expression sets per root, behaviours plain/append/appendsame/register-root and errors reported "
+      "from the DSL, from Prepare, recorded and/or returned by Validate (incl. empty and typed-nil ValidationErrors), from Finalize, on roots and on "
+      "expressions of every interface set; ComputeOrder with any topological order or the cycle error, per-expression Exec/Prepare/Validate/Finalize steps, phase barriers, "
       "late-root pick-up) is model-checked exhaustively for 2 and 3 roots and a late-root family (quick), every digraph x registration order on 4 roots "
       "(thorough), with Termination under fairness; every configuration runs on the real eval.RunDSL with recording Root/Expression/Source/Preparer/Validator/"
       "Finalizer stubs and the callback log plus the returned error are judged by TLC trace validation (the order Roots() used is bound from the trace); "
